@@ -310,6 +310,8 @@ func (r *yieldRewriter) rewriteStmt(
 		// ↓↓ trival branch ↓↓
 		// all other stmt are trival,
 		// no rewriting, no combine
+		// (a yield inside would survive as a call of the no-op stub and be dropped silently)
+		r.assert(r.mustNoYield(stmt), stmt, "yield not supported in %T", stmt)
 		children.push(stmt, kindTrival)
 		return children
 	}
@@ -381,6 +383,8 @@ func (r *yieldRewriter) rewriteIfStmt(
 		}
 		return block
 	}
+
+	r.assert(r.mustNoYield(stmt.Init), stmt, "yield not supported in if-init")
 
 	switch alt := stmt.Else.(type) {
 	case nil:
